@@ -192,6 +192,11 @@ def run(prop, tier):
                 'flavour': fl, 'mir_bodies': len(facts['fns']), 'mir_opt_level': facts['mir_opt_level'],
                 'overflow_checks': facts['overflow_checks'], 'debug_assertions': facts['debug_assertions'],
                 'extract_s': facts['_extract_s']})
+            probes = [e['var'] for e in facts.get('env_reads', []) if not e['var'].startswith('CARGO_')]
+            if probes:
+                rep.finding('BUILD-ENV compile-time dependence on %s' % ','.join(sorted(probes)),
+                            'the crate reads build-time environment variable(s) %s (env!/option_env!): what is compiled depends on the '
+                            'environment of the build, so a verdict about this compilation does not carry over to other builds; fails closed' % sorted(probes))
             fn(ctx, rep, tier)
         except Undecided as e:
             rep.undecided('%s [%s MIR]' % (e, fl))
